@@ -131,6 +131,7 @@ type Specs struct {
 	PropsOf  map[string][]string
 	NonNil   []string // package-level variables assumed non-nil (library sentinels)
 	Guarded  map[string]GuardDef
+	Confined []ConfinedDef
 	ChanInvs map[string]*MacroDef
 }
 
@@ -540,6 +541,21 @@ func (sp *Specs) LoadFile(path, pkgName string) error {
 				sp.Guarded[pkgName+"."+v] = GuardDef{Lock: strings.TrimSpace(parts[0]), Props: props}
 			}
 			cur = nil
+		case "confined":
+			// confined Type.field: F1, F2 [; C05]  -- only the listed functions (and the function literals
+			// inside them) touch the field: an ownership condition checked over the SSA of the whole repository
+			parts := strings.SplitN(rest, ":", 2)
+			if len(parts) != 2 {
+				return fail("confined Type.field: functions")
+			}
+			fns := parts[1]
+			var props []string
+			if j := strings.Index(fns, ";"); j >= 0 {
+				props = splitList(fns[j+1:])
+				fns = fns[:j]
+			}
+			sp.Confined = append(sp.Confined, ConfinedDef{Field: pkgName + "." + strings.TrimSpace(parts[0]), Owners: splitList(fns), Props: props, Src: strings.TrimSpace(rest)})
+			cur = nil
 		case "global_nonnil":
 			sp.NonNil = append(sp.NonNil, splitList(rest)...)
 			cur = nil
@@ -819,4 +835,13 @@ func matchPattern(pat, name string) bool {
 		return strings.HasPrefix(name, strings.TrimSuffix(pat, "*"))
 	}
 	return pat == name
+}
+
+// ConfinedDef: a struct field that only the listed functions of its package may touch (goroutine confinement:
+// the field belongs to the goroutine running those functions).
+type ConfinedDef struct {
+	Field  string // pkg.Type.field
+	Owners []string
+	Props  []string
+	Src    string
 }
